@@ -15,6 +15,9 @@ Proof. destruct k, v as [| |[]|[]| |]; simpl; intros H; try reflexivity; discrim
 Lemma veqb_view : forall v o, veqb (view v) o = veqb v o.
 Proof. destruct v; reflexivity. Qed.
 
+Lemma vcmp_view : forall ne v o, vcmp ne (view v) o = vcmp ne v o.
+Proof. intros ne v o. destruct v; reflexivity. Qed.
+
 (* ---------- patterns that do not look inside strings ---------- *)
 
 Lemma match_first_ext : forall (f g : pat -> value -> option env) ps v,
@@ -198,7 +201,7 @@ Proof.
       * destruct IH as [em [M1 [M2 M3]]]. rewrite M1. exists ((M i, view cv) :: em). split; [reflexivity|]. split.
         -- intros x. simpl. apply M2.
         -- intros pre Hpre. cbn [local_guards flat_map app forallb beval matom_eval compares_hold pos_compare].
-           rewrite mlookup_app, (Hpre i (le_n i)). cbn [mlookup ident_eqb]. rewrite Nat.eqb_refl, H0, HV, veqb_view.
+           rewrite mlookup_app, (Hpre i (le_n i)). cbn [mlookup ident_eqb]. rewrite Nat.eqb_refl, H0, HV, vcmp_view.
            f_equal.
            replace (pre ++ (M i, view v) :: em)%list with ((pre ++ [(M i, view v)]) ++ em)%list
              by (rewrite <- app_assoc; reflexivity).
